@@ -85,6 +85,19 @@ def body_api(case, rec):
             must(stream.write_assembly, conv.mk_assembly("b", parts[1]), what="write_assembly (second output)")
         finally:
             fa.close(fai2)
+    # the AGP that is written beside such a FASTA lists the same rows with the same lengths (terminal gap rows included)
+    import io as _io
+
+    from tola.assembly.format import format_agp
+
+    buf = _io.StringIO()
+    must(format_agp, asm, buf, what="format_agp")
+    objects = ref.read_agp(buf.getvalue())[1]
+    want_rows = [[n, [r[:5] if r[0] == "F" else r for r in rows]] for n, rows in case["scaffolds"] if rows]  # (a scaffold without rows has no AGP line)
+    got_rows = [[n, [r[:5] if r[0] == "F" else r for r in rows]] for n, rows in objects]
+    # (object names starting with '#' read as comment lines: the AGP text format cannot carry them)
+    if len({n for n, _r in want_rows}) == len(want_rows) and not any(n.startswith("#") for n, _r in want_rows) and got_rows != want_rows:
+        raise Violation(f"the AGP written for the assembly does not list its rows: {got_rows[:2]} vs {want_rows[:2]}")
     want = ref.apply_agp_to_fasta(seqs, case["scaffolds"], case["line_length"])
     if got != want:
         k = next((i for i, (x, y) in enumerate(zip(got, want)) if x != y), min(len(got), len(want)))
